@@ -135,7 +135,7 @@ def data_cov(spec, x, theta):
 
 # ------------------------------------------------------------------ mean functions
 def mean_n_params(name, d):
-    return {"Constant": 1, "Linear": 1 + d, "Quadratic": 1 + 2 * d, "UserDecay": 2}[name]
+    return {"Constant": 1, "Linear": 1 + d, "Quadratic": 1 + 2 * d, "UserDecay": 2, "UserBump": 2}[name]
 
 
 def user_decay(q, theta, x_train):
@@ -155,6 +155,11 @@ def mean(name, q, theta, x_train):
         return np.full(q.shape[0], theta[0])
     if name == "UserDecay":
         return user_decay(q, theta, x_train)
+    if name == "UserBump":
+        # a * exp(-|u|^2 / (2 w^2)), u = (x - centroid) / extent of the training inputs, per coordinate
+        ext = np.ptp(np.asarray(x_train, float), axis=0)
+        ext = np.where(ext > 0, ext, 1.0)
+        return theta[0] * np.exp(-0.5 * (((q - xbar) / ext) ** 2).sum(axis=1) / theta[1] ** 2)
     dq = q - xbar
     if name == "Linear":
         return theta[0] + dq @ theta[1:1 + d]
